@@ -279,6 +279,23 @@ func (a *autoCache) Quiesce() bool {
 	return false
 }
 
+// QuiesceOrControl is Quiesce with a second opinion: when none of the sentinels was
+// handled (32 s), a control cache created now on the same directories gets the same
+// chance. If the control handles its sentinel the machine is fine and the silence is
+// the cache's own: the caller goes on to its comparison (proceed = true) instead of
+// giving up; the comparison then decides.
+func (a *autoCache) QuiesceOrControl(root string, dirs []string) (proceed bool) {
+	if a.Quiesce() {
+		return true
+	}
+	ctl, err := newAutoCache(root, a.Anchor, dirs)
+	if err != nil {
+		return false
+	}
+	defer ctl.Close()
+	return ctl.Quiesce()
+}
+
 func (a *autoCache) Close() {
 	if a.C != nil {
 		releaseCache(a.C)
